@@ -40,7 +40,16 @@ def _compile(cxx, src, defs=()):
     return r.returncode, r.stdout
 
 
+def pre(chk):
+    """Runs before the witness matrix is extracted: the type-level witness needs only the header, so a change to a
+    helper that also stops one of the witness grammars from compiling is still reported (a violation is a verdict,
+    'the witness matrix does not compile' is not)."""
+    hlp_t(chk, ("clang++", "g++") if chk.tier == "thorough" else ("clang++",))
+
+
 def hlp_t(chk, compilers):
+    if "HLP-T" in chk.rules:
+        return          # already decided in the pre-phase
     src, n_pos, n_neg = helpers_witness.gen()
     chk.rule("HLP-T", "type-level assertions over all arities and positions", n_pos)
     d = tempfile.mkdtemp(prefix="ctpgsa-helpers-")
